@@ -134,7 +134,11 @@ fn write_reply(s: &mut TcpStream, r: &Reply, port: u16) {
     let reason = match r.status {
         200 => "OK",
         201 => "Created",
+        301 => "Moved Permanently",
         302 => "Found",
+        303 => "See Other",
+        307 => "Temporary Redirect",
+        308 => "Permanent Redirect",
         400 => "Bad Request",
         401 => "Unauthorized",
         403 => "Forbidden",
@@ -153,7 +157,7 @@ fn write_reply(s: &mut TcpStream, r: &Reply, port: u16) {
             head.extend_from_slice(b"\r\n");
         }
     }
-    if r.fault == "location" || r.status == 302 {
+    if r.fault == "location" || matches!(r.status, 301 | 302 | 303 | 307 | 308) {
         head.extend_from_slice(format!("Location: http://127.0.0.1:{}/redirected\r\n", port).as_bytes());
     }
     let truncated = r.fault == "truncated";
